@@ -104,50 +104,39 @@ def _set_has(st, g, z):
     return z3.Select(st.heap[st.ghost[g].rid].mem, z)
 
 
-def getvalue_dirty(which):
-    """getvalue() of a capture buffer: whatever the test wrote is in it -- the buffer is in use (dirty, not rewound)"""
-    def h(E, st, node, args, kws, k):
-        inner = getvalue(which)
-
-        def after(s2, v):
-            if 'dirty' in s2.ghost:
-                _set_put(s2, 'dirty', s2.ghost[which].z, True)
-                _set_put(s2, 'rewound', s2.ghost[which].z, False)
-            return k(s2, v)
-        return inner(E, st, node, args, kws, after)
-    h.__name__ = 'sys.%s.getvalue(): AttributeError unless a capture buffer; marks it as written to (ghost G.dirty)' % which
-    h.modifies = ['G.dirty', 'G.rewound']
-    return h
+def stream_getvalue(E, st, recv, node, args, kws, k):
+    """stream.getvalue(): AttributeError unless the stream is a capture buffer; whatever the test wrote is in it -- the
+    buffer is in use (dirty, not rewound)"""
+    def after(s2):
+        if 'dirty' in s2.ghost:
+            _set_put(s2, 'dirty', recv.z, True)
+            _set_put(s2, 'rewound', recv.z, False)
+        return k(s2, fresh_val(('obj', 'Str'), 'captured', s2))
+    return E.guard(st, _isbuf(E, st, recv).z, 'AttributeError', 'getvalue', node, after)
+stream_getvalue.__name__ = 'stream.getvalue(): AttributeError unless a capture buffer; marks it as written to (ghost G.dirty)'
+stream_getvalue.modifies = ['G.dirty', 'G.rewound']
 
 
-def buf_seek(field):
-    def h(E, st, node, args, kws, k):
-        me = st.lookup('self')
-        b = st.heap[me.rid].fields[field]
-        z = b.inner.z if isinstance(b, VOpt) else b.z
-        if E.const_int(args[0]) != 0:
-            raise Exception("seek to a non-zero offset is not modelled")
-        _set_put(st, 'rewound', z, True)
-        return k(st, NONE)
-    h.__name__ = 'self.%s.seek(0): position := 0 (ghost G.rewound)' % field
-    h.modifies = ['G.rewound']
-    return h
+def stream_seek(E, st, recv, node, args, kws, k):
+    if E.const_int(args[0]) != 0:
+        raise Exception("seek to a non-zero offset is not modelled")
+    if 'rewound' in st.ghost:
+        _set_put(st, 'rewound', recv.z, True)
+    return k(st, NONE)
+stream_seek.__name__ = 'buffer.seek(0): position := 0 (ghost G.rewound)'
+stream_seek.modifies = ['G.rewound']
 
 
-def buf_truncate(field):
-    def h(E, st, node, args, kws, k):
-        me = st.lookup('self')
-        b = st.heap[me.rid].fields[field]
-        z = b.inner.z if isinstance(b, VOpt) else b.z
-        if E.const_int(args[0]) != 0:
-            raise Exception("truncate to a non-zero size is not modelled")
-        # io semantics: truncate(0) empties the buffer but leaves the position where it was; the buffer is clean (empty
-        # and positioned at 0, so the next capture starts with exactly what is written) only if it was rewound before
-        _set_put(st, 'dirty', z, z3.And(_set_has(st, 'dirty', z), z3.Not(_set_has(st, 'rewound', z))))
-        return k(st, NONE)
-    h.__name__ = 'self.%s.truncate(0): size := 0, position unchanged; clean iff rewound before (ghost G.dirty)' % field
-    h.modifies = ['G.dirty']
-    return h
+def stream_truncate(E, st, recv, node, args, kws, k):
+    if E.const_int(args[0]) != 0:
+        raise Exception("truncate to a non-zero size is not modelled")
+    # io semantics: truncate(0) empties the buffer but leaves the position where it was; the buffer is clean (empty
+    # and positioned at 0, so the next capture starts with exactly what is written) only if it was rewound before
+    if 'dirty' in st.ghost:
+        _set_put(st, 'dirty', recv.z, z3.And(_set_has(st, 'dirty', recv.z), z3.Not(_set_has(st, 'rewound', recv.z))))
+    return k(st, NONE)
+stream_truncate.__name__ = 'buffer.truncate(0): size := 0, position unchanged; clean iff rewound before (ghost G.dirty)'
+stream_truncate.modifies = ['G.dirty']
 
 
 RESTORE_STREAMS = method({
@@ -157,9 +146,6 @@ RESTORE_STREAMS = method({
     'modifies': ['G.stdout', 'G.stderr', 'G.cap_out', 'G.cap_err', 'G.dirty', 'G.rewound'],
     'ghost': dict(GHOST, dirty='Set[Stream]', rewound='Set[Stream]'),
     'ghost_exit': {'cap_out': '_ret[0]', 'cap_err': '_ret[1]'},
-    'rules': {'sys.stdout.getvalue': getvalue_dirty('stdout'), 'sys.stderr.getvalue': getvalue_dirty('stderr'),
-              'self._stdout_buffer.seek': buf_seek('_stdout_buffer'), 'self._stdout_buffer.truncate': buf_truncate('_stdout_buffer'),
-              'self._stderr_buffer.seek': buf_seek('_stderr_buffer'), 'self._stderr_buffer.truncate': buf_truncate('_stderr_buffer')},
     'ensures': ["implies(old(" + SOK + "), " + ORIG + ")",
                 # C13: a capture buffer that is taken out of service is left empty AND rewound, so that the next test's
                 # captured text is exactly what that test writes (io: truncate() alone keeps the old position)
@@ -675,13 +661,12 @@ def register(E):
     E.load_sidecar(os.path.join(HERE, 'common.py'))
     E.load_sidecar(os.path.join(HERE, 'runner_layers.py'))
     E.records['Options'].update({'ignore_new_threads': 'List[Str]'})
+    E.objmethods.update({('Stream', 'getvalue'): stream_getvalue, ('Stream', 'seek'): stream_seek,
+                         ('Stream', 'truncate'): stream_truncate})
     E.globals['sys.stdout'] = lambda eng, st: st.ghost['stdout']
     E.globals['sys.stderr'] = lambda eng, st: st.ghost['stderr']
     E.global_rules.update({
         'store:sys.stdout': store_stream('stdout'), 'store:sys.stderr': store_stream('stderr'),
-        'sys.stdout.getvalue': getvalue('stdout'), 'sys.stderr.getvalue': getvalue('stderr'),
-        'self._stdout_buffer.seek': 'NOEFFECT', 'self._stdout_buffer.truncate': 'NOEFFECT',
-        'self._stderr_buffer.seek': 'NOEFFECT', 'self._stderr_buffer.truncate': 'NOEFFECT',
         'layer.testSetUp': test_hook('testSetUp'), 'layer.testTearDown': test_hook('testTearDown'),
         'unittest.TestResult.addError': base_add('errors', True),
         'unittest.TestResult.addFailure': base_add('failures', True),
